@@ -38,6 +38,8 @@ type c01Cfg struct {
 	DefExpr string `json:"defExpr"`
 	Limit   int64  `json:"limit"`
 	PLimit  uint64 `json:"plimit"`
+	St      bool   `json:"st"` // a CallbackSt is installed
+	CD      bool   `json:"cd"` // a custom dice pattern is registered
 }
 
 func c01CfgOf(r *rand.Rand) c01Cfg {
@@ -46,6 +48,8 @@ func c01CfgOf(r *rand.Rand) c01Cfg {
 	if r.Intn(3) == 0 {
 		c.Fam = 15
 	}
+	c.St = r.Intn(2) == 0
+	c.CD = r.Intn(2) == 0
 	return c
 }
 
@@ -57,6 +61,21 @@ func (c c01Cfg) apply(vm *ds.Context) {
 	vm.Config.DefaultDiceSideExpr = c.DefExpr
 	vm.Config.OpCountLimit = ds.IntType(c.Limit)
 	vm.Config.ParseExprLimit = c.PLimit
+	if c.St {
+		vm.Config.CallbackSt = func(_type string, name string, val *ds.VMValue, extra *ds.VMValue, op string, detail string) {
+			_ = val.ToString() // a host reads what it is given
+			if extra != nil {
+				_ = extra.ToString()
+			}
+		}
+	} else {
+		vm.Config.CallbackSt = nil
+	}
+	if c.CD && len(vm.CustomDiceInfo) == 0 {
+		_ = vm.RegCustomDice(`(\d+)E(\d+)`, func(ctx *ds.Context, groups []string, payload any) (*ds.VMValue, string, error) {
+			return ds.NewIntVal(ds.IntType(len(groups))), "E", nil
+		})
+	}
 }
 
 type c01Step struct {
@@ -78,7 +97,12 @@ type c01Obs struct {
 	PanicFunc    string    `json:"panicFunc"`
 	PanicMsg     string    `json:"panicMsg"`
 	Count        int       `json:"count"`
+	// the input holds a `// #EnableDice <family> false` line inside a template block: such inputs are kept apart from all
+	// others (the look-ahead pass does not see the line - known finding KF-C01-1)
+	MacroOffInHole bool `json:"macroOffInHole"`
 }
+
+var reMacroOffInHole = regexp.MustCompile("(?s)\\{%.*//\\s*#EnableDice\\s+\\w+\\s+false")
 
 var reFrame = regexp.MustCompile(`github\.com/sealdice/dicescript\.((?:\(\*?[A-Za-z0-9_]+\)\.)?[A-Za-z0-9_]+)`)
 var reDigits = regexp.MustCompile(`[0-9]+`)
@@ -168,7 +192,7 @@ func (o *c01Obs) sig() string {
 	for _, s := range o.Steps {
 		sb.WriteString(s.Call + "=" + s.Out + ";")
 	}
-	return fmt.Sprintf("%s|%v|%v|%v|%s|%s|%s|%s", o.Kind, o.Hang, o.Fatal, o.DetailStable, o.PanicVia, o.PanicFunc, o.PanicMsg, sb.String())
+	return fmt.Sprintf("%s|%v|%v|%v|%s|%s|%s|%s|%v", o.Kind, o.Hang, o.Fatal, o.DetailStable, o.PanicVia, o.PanicFunc, o.PanicMsg, sb.String(), o.MacroOffInHole)
 }
 
 var c01Tokens = []string{"1", "2", "0", "10", "99999", "1.5", "d", "D", "d6", "2d6", "k", "kh", "kl", "q", "dh", "dl", "min", "max", "a", "b", "c", "f", "p", "m", "3a10", "2c5", "b2", "p1",
@@ -215,9 +239,22 @@ func c01Inputs(r *rand.Rand, corpus []string, n int) []string {
 	return out
 }
 
+// c01Short keeps the head and the tail of a long input (nesting cases run to hundreds of kilobytes)
+func c01Short(s string) string {
+	if len(s) <= 400 {
+		return s
+	}
+	return s[:300] + fmt.Sprintf(" …(%d bytes)… ", len(s)) + s[len(s)-60:]
+}
+
 type c01Plan struct {
 	T string   `json:"t"`
 	A []string `json:"a"`
+	// nesting cases (p5)
+	O      string `json:"o"`
+	C      string `json:"c"`
+	N      int    `json:"n"`
+	Closed bool   `json:"closed"`
 }
 
 func init() {
@@ -254,7 +291,7 @@ func init() {
 		var srcs []string
 		if *kind == "plan" {
 			idx := 0
-			for _, f := range []string{"p1.ndjson", "p2.ndjson", "p3.ndjson", "p4.ndjson"} {
+			for _, f := range []string{"p1.ndjson", "p2.ndjson", "p3.ndjson", "p4.ndjson", "p5.ndjson"} {
 				readND(*dir+"/"+f, func(line []byte) {
 					var p c01Plan
 					if json.Unmarshal(line, &p) != nil {
@@ -265,6 +302,14 @@ func init() {
 						return
 					}
 					if f == "p3.ndjson" && *t3every > 1 && (idx/sn+int(envSeed()))%*t3every != 0 {
+						return
+					}
+					if f == "p5.ndjson" {
+						src := strings.Repeat(p.O, p.N) + "1"
+						if p.Closed {
+							src += strings.Repeat(p.C, p.N)
+						}
+						srcs = append(srcs, src)
 						return
 					}
 					s := p.T
@@ -312,7 +357,7 @@ func init() {
 				if st := curStart.Load(); st != 0 && time.Now().UnixMilli()-st > 30000 {
 					mu.Lock()
 					i := int(cur.Load())
-					o := &c01Obs{Ev: "c01", Kind: *kind, Src: srcs[i], Hang: true, DetailStable: true, Steps: []c01Step{}, Count: 1}
+					o := &c01Obs{Ev: "c01", Kind: *kind, Src: c01Short(srcs[i]), Hang: true, DetailStable: true, Steps: []c01Step{}, Count: 1}
 					agg["hang"+fmt.Sprint(i)] = o
 					order = append(order, "hang"+fmt.Sprint(i))
 					flush()
@@ -346,7 +391,7 @@ func init() {
 				}()
 				cfg.apply(vm)
 			}
-			o := &c01Obs{Ev: "c01", Kind: *kind, Src: src, Cfg: cfg, Reused: reused, Count: 1}
+			o := &c01Obs{Ev: "c01", Kind: *kind, Src: src, Cfg: cfg, Reused: reused, Count: 1, MacroOffInHole: reMacroOffInHole.MatchString(src)}
 			curStart.Store(time.Now().UnixMilli())
 			c01Observe(vm, src, o)
 			curStart.Store(0)
@@ -359,9 +404,7 @@ func init() {
 			if old, ok := agg[k]; ok {
 				old.Count++
 			} else {
-				if len(o.Src) > 400 {
-					o.Src = o.Src[:400]
-				}
+				o.Src = c01Short(o.Src)
 				agg[k] = o
 				order = append(order, k)
 			}
@@ -439,7 +482,7 @@ func init() {
 								msg = msg[:300]
 							}
 						}
-						ob := c01Obs{Ev: "c01", Kind: *kind, Src: src, Fatal: true, DetailStable: true, Steps: []c01Step{}, PanicMsg: msg, Count: 1}
+						ob := c01Obs{Ev: "c01", Kind: *kind, Src: c01Short(src), Fatal: true, DetailStable: true, Steps: []c01Step{}, PanicMsg: msg, Count: 1}
 						b, _ := json.Marshal(ob)
 						mu.Lock()
 						all = append(all, b)
